@@ -105,3 +105,382 @@ pub fn publication_builtin_topic_data_from_qos(
         representation: qos.representation.clone(),
     }
 }
+
+// ---- engine `plist` (C13, C07): discovery data records and their parameter-list codec.
+// Re-exports of the (already `pub`) record types of the private module
+// `dcps::data_representation_builtin_endpoints` plus mirror structs with public fields, because the
+// records and the builtin-topic structs have crate-private fields.
+pub use crate::dcps::data_representation_builtin_endpoints::{
+    discovered_reader_data::{DiscoveredReaderData, ReaderProxy},
+    discovered_topic_data::DiscoveredTopicData,
+    discovered_writer_data::{DiscoveredWriterData, WriterProxy},
+    rtps_data_representation::CdrError,
+    spdp_discovered_participant_data::{
+        BuiltinEndpointQos, BuiltinEndpointSet, ParticipantProxy, SpdpDiscoveredParticipantData,
+    },
+};
+use crate::builtin_topics::{ParticipantBuiltinTopicData, TopicBuiltinTopicData};
+use crate::infrastructure::qos_policy::{
+    DataRepresentationQosPolicy, DeadlineQosPolicy, DestinationOrderQosPolicy, DurabilityQosPolicy,
+    GroupDataQosPolicy, HistoryQosPolicy, LatencyBudgetQosPolicy, LifespanQosPolicy,
+    LivelinessQosPolicy, OwnershipQosPolicy, OwnershipStrengthQosPolicy, PartitionQosPolicy,
+    PresentationQosPolicy, ReliabilityQosPolicy, ResourceLimitsQosPolicy, TimeBasedFilterQosPolicy,
+    TopicDataQosPolicy, TransportPriorityQosPolicy, TypeConsistencyEnforcementQosPolicy,
+    UserDataQosPolicy,
+};
+use crate::infrastructure::time::Duration;
+use crate::transport::types::{EntityId, Guid, Locator, ProtocolVersion};
+use crate::xtypes::type_object::TypeInformation;
+use crate::xtypes::type_support::TypeSupport;
+
+/// A `Duration` with exactly these field values (no normalisation).
+pub fn verif_duration_raw(sec: i32, nanosec: u32) -> Duration {
+    Duration { sec, nanosec }
+}
+
+/// `TypeInformation` from / to its XCDR2 little-endian encoding without header (the value of PID_TYPE_INFORMATION).
+pub fn verif_type_information_from_xcdr2_le(bytes: &[u8]) -> Option<TypeInformation> {
+    let mut d = crate::xtypes::deserializer::deserialize_top_level_type_from_representation_identifier(
+        TypeInformation::get_type(),
+        [0x00, 0x07],
+        bytes,
+    )
+    .ok()?;
+    TypeInformation::create_sample(&mut d)
+}
+pub fn verif_type_information_to_xcdr2_le(ti: TypeInformation) -> alloc::vec::Vec<u8> {
+    let data = ti.create_dynamic_sample();
+    crate::xtypes::serializer::serialize_without_header_cdr2_le(alloc::vec::Vec::new(), &data)
+        .expect("Must succeed")
+}
+
+/// Mirror of `SpdpDiscoveredParticipantData` (all fields public).
+#[derive(Debug, Clone, PartialEq)]
+pub struct VerifParticipant {
+    pub key: [u8; 16],
+    pub user_data: alloc::vec::Vec<u8>,
+    pub domain_id: Option<i32>,
+    pub domain_tag: alloc::string::String,
+    pub protocol_version: [u8; 2],
+    pub guid_prefix: [u8; 12],
+    pub vendor_id: [u8; 2],
+    pub expects_inline_qos: bool,
+    pub metatraffic_unicast_locator_list: alloc::vec::Vec<Locator>,
+    pub metatraffic_multicast_locator_list: alloc::vec::Vec<Locator>,
+    pub default_unicast_locator_list: alloc::vec::Vec<Locator>,
+    pub default_multicast_locator_list: alloc::vec::Vec<Locator>,
+    pub available_builtin_endpoints: u32,
+    pub manual_liveliness_count: i32,
+    pub builtin_endpoint_qos: u32,
+    pub lease_duration: Duration,
+}
+impl VerifParticipant {
+    pub fn into_real(self) -> SpdpDiscoveredParticipantData {
+        SpdpDiscoveredParticipantData {
+            dds_participant_data: ParticipantBuiltinTopicData {
+                key: BuiltInTopicKey { value: self.key },
+                user_data: UserDataQosPolicy { value: self.user_data },
+            },
+            participant_proxy: ParticipantProxy {
+                domain_id: self.domain_id,
+                domain_tag: self.domain_tag,
+                protocol_version: ProtocolVersion::new(self.protocol_version[0], self.protocol_version[1]),
+                guid_prefix: self.guid_prefix,
+                vendor_id: self.vendor_id,
+                expects_inline_qos: self.expects_inline_qos,
+                metatraffic_unicast_locator_list: self.metatraffic_unicast_locator_list,
+                metatraffic_multicast_locator_list: self.metatraffic_multicast_locator_list,
+                default_unicast_locator_list: self.default_unicast_locator_list,
+                default_multicast_locator_list: self.default_multicast_locator_list,
+                available_builtin_endpoints: BuiltinEndpointSet(self.available_builtin_endpoints),
+                manual_liveliness_count: self.manual_liveliness_count,
+                builtin_endpoint_qos: BuiltinEndpointQos(self.builtin_endpoint_qos),
+            },
+            lease_duration: self.lease_duration,
+            discovered_participant_list: alloc::vec::Vec::new(),
+        }
+    }
+    pub fn from_real(d: &SpdpDiscoveredParticipantData) -> Self {
+        let p = &d.participant_proxy;
+        Self {
+            key: d.dds_participant_data.key.value,
+            user_data: d.dds_participant_data.user_data.value.clone(),
+            domain_id: p.domain_id,
+            domain_tag: p.domain_tag.clone(),
+            protocol_version: p.protocol_version.bytes,
+            guid_prefix: p.guid_prefix,
+            vendor_id: p.vendor_id,
+            expects_inline_qos: p.expects_inline_qos,
+            metatraffic_unicast_locator_list: p.metatraffic_unicast_locator_list.clone(),
+            metatraffic_multicast_locator_list: p.metatraffic_multicast_locator_list.clone(),
+            default_unicast_locator_list: p.default_unicast_locator_list.clone(),
+            default_multicast_locator_list: p.default_multicast_locator_list.clone(),
+            available_builtin_endpoints: p.available_builtin_endpoints.0,
+            manual_liveliness_count: p.manual_liveliness_count,
+            builtin_endpoint_qos: p.builtin_endpoint_qos.0,
+            lease_duration: d.lease_duration,
+        }
+    }
+}
+
+/// Mirror of `DiscoveredWriterData` (all fields public).
+#[derive(Debug, Clone, PartialEq)]
+pub struct VerifWriter {
+    pub key: [u8; 16],
+    pub participant_key: [u8; 16],
+    pub topic_name: alloc::string::String,
+    pub type_name: alloc::string::String,
+    pub type_information: Option<TypeInformation>,
+    pub durability: DurabilityQosPolicy,
+    pub deadline: DeadlineQosPolicy,
+    pub latency_budget: LatencyBudgetQosPolicy,
+    pub liveliness: LivelinessQosPolicy,
+    pub reliability: ReliabilityQosPolicy,
+    pub lifespan: LifespanQosPolicy,
+    pub user_data: UserDataQosPolicy,
+    pub ownership: OwnershipQosPolicy,
+    pub ownership_strength: OwnershipStrengthQosPolicy,
+    pub destination_order: DestinationOrderQosPolicy,
+    pub presentation: PresentationQosPolicy,
+    pub partition: PartitionQosPolicy,
+    pub topic_data: TopicDataQosPolicy,
+    pub group_data: GroupDataQosPolicy,
+    pub representation: DataRepresentationQosPolicy,
+    pub remote_writer_guid: [u8; 16],
+    pub remote_group_entity_id: [u8; 4],
+    pub unicast_locator_list: alloc::vec::Vec<Locator>,
+    pub multicast_locator_list: alloc::vec::Vec<Locator>,
+}
+impl VerifWriter {
+    pub fn into_real(self) -> DiscoveredWriterData {
+        let g = self.remote_group_entity_id;
+        DiscoveredWriterData {
+            dds_publication_data: PublicationBuiltinTopicData {
+                key: BuiltInTopicKey { value: self.key },
+                participant_key: BuiltInTopicKey { value: self.participant_key },
+                topic_name: self.topic_name.into(),
+                type_name: self.type_name.into(),
+                type_information: self.type_information,
+                durability: self.durability,
+                deadline: self.deadline,
+                latency_budget: self.latency_budget,
+                liveliness: self.liveliness,
+                reliability: self.reliability,
+                lifespan: self.lifespan,
+                user_data: self.user_data,
+                ownership: self.ownership,
+                ownership_strength: self.ownership_strength,
+                destination_order: self.destination_order,
+                presentation: self.presentation,
+                partition: self.partition,
+                topic_data: self.topic_data,
+                group_data: self.group_data,
+                representation: self.representation,
+            },
+            writer_proxy: WriterProxy {
+                remote_writer_guid: Guid::from(self.remote_writer_guid),
+                remote_group_entity_id: EntityId::new([g[0], g[1], g[2]], g[3]),
+                unicast_locator_list: self.unicast_locator_list,
+                multicast_locator_list: self.multicast_locator_list,
+            },
+        }
+    }
+    pub fn from_real(d: &DiscoveredWriterData) -> Self {
+        let b = &d.dds_publication_data;
+        let e = d.writer_proxy.remote_group_entity_id;
+        let k = e.entity_key();
+        Self {
+            key: b.key.value,
+            participant_key: b.participant_key.value,
+            topic_name: b.topic_name.value.clone(),
+            type_name: b.type_name.value.clone(),
+            type_information: b.type_information.clone(),
+            durability: b.durability.clone(),
+            deadline: b.deadline.clone(),
+            latency_budget: b.latency_budget.clone(),
+            liveliness: b.liveliness.clone(),
+            reliability: b.reliability.clone(),
+            lifespan: b.lifespan.clone(),
+            user_data: b.user_data.clone(),
+            ownership: b.ownership.clone(),
+            ownership_strength: b.ownership_strength.clone(),
+            destination_order: b.destination_order.clone(),
+            presentation: b.presentation.clone(),
+            partition: b.partition.clone(),
+            topic_data: b.topic_data.clone(),
+            group_data: b.group_data.clone(),
+            representation: b.representation.clone(),
+            remote_writer_guid: d.writer_proxy.remote_writer_guid.into(),
+            remote_group_entity_id: [k[0], k[1], k[2], e.entity_kind()],
+            unicast_locator_list: d.writer_proxy.unicast_locator_list.clone(),
+            multicast_locator_list: d.writer_proxy.multicast_locator_list.clone(),
+        }
+    }
+}
+
+/// Mirror of `DiscoveredReaderData` (all fields public).
+#[derive(Debug, Clone, PartialEq)]
+pub struct VerifReader {
+    pub key: [u8; 16],
+    pub participant_key: [u8; 16],
+    pub topic_name: alloc::string::String,
+    pub type_name: alloc::string::String,
+    pub type_information: Option<TypeInformation>,
+    pub durability: DurabilityQosPolicy,
+    pub deadline: DeadlineQosPolicy,
+    pub latency_budget: LatencyBudgetQosPolicy,
+    pub liveliness: LivelinessQosPolicy,
+    pub reliability: ReliabilityQosPolicy,
+    pub ownership: OwnershipQosPolicy,
+    pub destination_order: DestinationOrderQosPolicy,
+    pub user_data: UserDataQosPolicy,
+    pub time_based_filter: TimeBasedFilterQosPolicy,
+    pub presentation: PresentationQosPolicy,
+    pub partition: PartitionQosPolicy,
+    pub topic_data: TopicDataQosPolicy,
+    pub group_data: GroupDataQosPolicy,
+    pub representation: DataRepresentationQosPolicy,
+    pub type_consistency: TypeConsistencyEnforcementQosPolicy,
+    pub remote_reader_guid: [u8; 16],
+    pub remote_group_entity_id: [u8; 4],
+    pub unicast_locator_list: alloc::vec::Vec<Locator>,
+    pub multicast_locator_list: alloc::vec::Vec<Locator>,
+    pub expects_inline_qos: bool,
+}
+impl VerifReader {
+    pub fn into_real(self) -> DiscoveredReaderData {
+        let g = self.remote_group_entity_id;
+        DiscoveredReaderData {
+            dds_subscription_data: SubscriptionBuiltinTopicData {
+                key: BuiltInTopicKey { value: self.key },
+                participant_key: BuiltInTopicKey { value: self.participant_key },
+                topic_name: self.topic_name.into(),
+                type_name: self.type_name.into(),
+                type_information: self.type_information,
+                durability: self.durability,
+                deadline: self.deadline,
+                latency_budget: self.latency_budget,
+                liveliness: self.liveliness,
+                reliability: self.reliability,
+                ownership: self.ownership,
+                destination_order: self.destination_order,
+                user_data: self.user_data,
+                time_based_filter: self.time_based_filter,
+                presentation: self.presentation,
+                partition: self.partition,
+                topic_data: self.topic_data,
+                group_data: self.group_data,
+                representation: self.representation,
+                type_consistency: self.type_consistency,
+            },
+            reader_proxy: ReaderProxy {
+                remote_reader_guid: Guid::from(self.remote_reader_guid),
+                remote_group_entity_id: EntityId::new([g[0], g[1], g[2]], g[3]),
+                unicast_locator_list: self.unicast_locator_list,
+                multicast_locator_list: self.multicast_locator_list,
+                expects_inline_qos: self.expects_inline_qos,
+            },
+        }
+    }
+    pub fn from_real(d: &DiscoveredReaderData) -> Self {
+        let b = &d.dds_subscription_data;
+        let e = d.reader_proxy.remote_group_entity_id;
+        let k = e.entity_key();
+        Self {
+            key: b.key.value,
+            participant_key: b.participant_key.value,
+            topic_name: b.topic_name.value.clone(),
+            type_name: b.type_name.value.clone(),
+            type_information: b.type_information.clone(),
+            durability: b.durability.clone(),
+            deadline: b.deadline.clone(),
+            latency_budget: b.latency_budget.clone(),
+            liveliness: b.liveliness.clone(),
+            reliability: b.reliability.clone(),
+            ownership: b.ownership.clone(),
+            destination_order: b.destination_order.clone(),
+            user_data: b.user_data.clone(),
+            time_based_filter: b.time_based_filter.clone(),
+            presentation: b.presentation.clone(),
+            partition: b.partition.clone(),
+            topic_data: b.topic_data.clone(),
+            group_data: b.group_data.clone(),
+            representation: b.representation.clone(),
+            type_consistency: b.type_consistency.clone(),
+            remote_reader_guid: d.reader_proxy.remote_reader_guid.into(),
+            remote_group_entity_id: [k[0], k[1], k[2], e.entity_kind()],
+            unicast_locator_list: d.reader_proxy.unicast_locator_list.clone(),
+            multicast_locator_list: d.reader_proxy.multicast_locator_list.clone(),
+            expects_inline_qos: d.reader_proxy.expects_inline_qos,
+        }
+    }
+}
+
+/// Mirror of `DiscoveredTopicData` (all fields public).
+#[derive(Debug, Clone, PartialEq)]
+pub struct VerifTopic {
+    pub key: [u8; 16],
+    pub name: alloc::string::String,
+    pub type_name: alloc::string::String,
+    pub type_information: Option<TypeInformation>,
+    pub durability: DurabilityQosPolicy,
+    pub deadline: DeadlineQosPolicy,
+    pub latency_budget: LatencyBudgetQosPolicy,
+    pub liveliness: LivelinessQosPolicy,
+    pub reliability: ReliabilityQosPolicy,
+    pub transport_priority: TransportPriorityQosPolicy,
+    pub lifespan: LifespanQosPolicy,
+    pub destination_order: DestinationOrderQosPolicy,
+    pub history: HistoryQosPolicy,
+    pub resource_limits: ResourceLimitsQosPolicy,
+    pub ownership: OwnershipQosPolicy,
+    pub topic_data: TopicDataQosPolicy,
+    pub representation: DataRepresentationQosPolicy,
+}
+impl VerifTopic {
+    pub fn into_real(self) -> DiscoveredTopicData {
+        DiscoveredTopicData {
+            topic_builtin_topic_data: TopicBuiltinTopicData {
+                key: BuiltInTopicKey { value: self.key },
+                name: self.name.into(),
+                type_name: self.type_name.into(),
+                type_information: self.type_information,
+                durability: self.durability,
+                deadline: self.deadline,
+                latency_budget: self.latency_budget,
+                liveliness: self.liveliness,
+                reliability: self.reliability,
+                transport_priority: self.transport_priority,
+                lifespan: self.lifespan,
+                destination_order: self.destination_order,
+                history: self.history,
+                resource_limits: self.resource_limits,
+                ownership: self.ownership,
+                topic_data: self.topic_data,
+                representation: self.representation,
+            },
+        }
+    }
+    pub fn from_real(d: &DiscoveredTopicData) -> Self {
+        let b = &d.topic_builtin_topic_data;
+        Self {
+            key: b.key.value,
+            name: b.name.value.clone(),
+            type_name: b.type_name.value.clone(),
+            type_information: b.type_information.clone(),
+            durability: b.durability.clone(),
+            deadline: b.deadline.clone(),
+            latency_budget: b.latency_budget.clone(),
+            liveliness: b.liveliness.clone(),
+            reliability: b.reliability.clone(),
+            transport_priority: b.transport_priority.clone(),
+            lifespan: b.lifespan.clone(),
+            destination_order: b.destination_order.clone(),
+            history: b.history.clone(),
+            resource_limits: b.resource_limits.clone(),
+            ownership: b.ownership.clone(),
+            topic_data: b.topic_data.clone(),
+            representation: b.representation.clone(),
+        }
+    }
+}
